@@ -25,10 +25,10 @@ from pgverif.gen import spaces as S
 from pgverif.monitors import genoref as G
 
 TIERS = {
-    'quick': dict(shards=8, cases=12, dnas=6, handed=3, per_member_sources=14,
+    'quick': dict(shards=8, cases=10, dnas=6, handed=3, per_member_sources=14,
                   chains=3, proposals=7, max_points=10, timeout_s=900,
                   case_timeout_s=300),
-    'thorough': dict(shards=16, cases=80, dnas=8, handed=4, per_member_sources=24,
+    'thorough': dict(shards=16, cases=64, dnas=8, handed=4, per_member_sources=24,
                      chains=5, proposals=10, max_points=18, all_views_per_case=True,
                      timeout_s=7200,
                      case_timeout_s=600),
